@@ -112,6 +112,14 @@ INT_DTYPES = ("int64", "int32", "uint8", "uint16", "uint64")
 SUM_SHAPES = {"sum_left": "((a+b)+c)", "sum_right": "(a+(b+c))", "sum_balanced": "((a+b)+(c+d))", "sum_deep": "(a+(b+(c+d)))",
               "sum_scaled_right": "(2a+(3b+c))", "sum_scaled_balanced": "((a+2b)+(3c+d))", "sum_chain4": "(((a+b)+c)+d)"}
 KINDS += sorted(SUM_SHAPES)
+# every spelling of a dtype argument: numpy scalar type (base kinds), builtin, np.dtype object
+# (strings are rejected by nifty.cl.utilities.check_dtype_or_none -- not a legal spelling)
+DT_SPELL = {"builtin": (float, complex), "npdtype": (np.dtype(np.float64), np.dtype(np.complex128))}
+KINDS += ["%s#%s" % (k, sp) for k in ("vcg_real", "vcg_cplx", "cgauss", "gauss_diag") for sp in sorted(DT_SPELL)]
+# covariance operators handed over in lazily flipped states, alone, inside Hamiltonians and in likelihood sums
+COV_STATES = ("invflag", "recip", "adjoint", "invadj", "scal_inv")
+KINDS += ["gauss_%s" % c for c in COV_STATES] + ["hamiltonian_gauss_%s" % c for c in COV_STATES] \
+    + ["hamiltonian_icsamp_gauss_%s" % c for c in ("invflag", "recip")] + ["sumsame_gauss_%s" % c for c in COV_STATES]
 KINDS += ["%s@%s" % (k, t) for k in ("bernoulli", "poisson", "categorical") for t in INT_DTYPES[1:]]
 
 
@@ -134,6 +142,8 @@ def make(kind, seed, n=3):
     dom = ift.UnstructuredDomain(n)
     I = Inst()
     I.kind, I.seed, I.n = kind, seed, n
+    kind, _, spell = kind.partition("#")
+    sp_real, sp_cplx = DT_SPELL[spell] if spell else (np.float64, np.complex128)
     kind, _, dtn = kind.partition("@")
     idt = np.dtype(dtn) if (dtn and np.issubdtype(np.dtype(dtn), np.integer)) else np.dtype(np.int64)     # integer data
     fdt = np.dtype(dtn) if (dtn and np.issubdtype(np.dtype(dtn), np.floating)) else np.dtype(np.float64)  # real data
@@ -145,11 +155,50 @@ def make(kind, seed, n=3):
         I.coords = Coords(energy.domain, dtypes)
         return I
 
+    cs = [c for c in COV_STATES if kind.endswith("gauss_" + c)]
+    if cs:
+        # N^-1 = diag(1/var) written in different lazy states of DiagonalOperator / ScalingOperator
+        c = cs[0]
+        var = np.exp(rng.normal(size=n) * 0.7)
+        d, x = rng.normal(size=n) * 2, rng.normal(size=n) * 2
+        if c == "invflag":
+            icov, ic = ift.makeOp(F(var), sampling_dtype=dt).inverse, 1 / var
+        elif c == "recip":
+            icov, ic = ift.makeOp(F(1 / var), sampling_dtype=dt), 1 / var
+        elif c == "adjoint":
+            icov, ic = ift.makeOp(F(1 / var), sampling_dtype=dt).adjoint, 1 / var
+        elif c == "invadj":
+            icov, ic = ift.makeOp(F(var), sampling_dtype=dt).adjoint.inverse, 1 / var
+        else:
+            sv = logu(rng, 0.3, 4)
+            icov, ic = ift.ScalingOperator(dom, sv, sampling_dtype=dt).inverse, np.full(n, 1 / sv)
+        lh = ift.GaussianEnergy(data=F(d), inverse_covariance=icov)
+        I.params = {"d": d, "icov": ic}
+        glogp = lambda p: float(np.sum(st.norm.logpdf(d, loc=p.asnumpy(), scale=1 / np.sqrt(ic))))
+        if kind.startswith("gauss_"):
+            I.logp = glogp
+            I.expected_metric = lambda p: np.diag(ic)
+            return finish(lh, F(x))
+        if kind.startswith("hamiltonian"):
+            I.logp = lambda p: glogp(p) - 0.5 * float(np.sum(p.asnumpy() ** 2))
+            I.expected_metric = lambda p: np.diag(ic) + np.eye(n)
+            I.is_hamiltonian = True
+            kw = {"ic_samp": ift.GradientNormController(iteration_limit=5)} if "icsamp" in kind else {}
+            return finish(ift.StandardHamiltonian(lh, prior_sampling_dtype=np.float64, **kw), F(x))
+        # sum of two likelihoods on the SAME domain, equal sampling dtypes: metrics add
+        c2 = logu(rng, 0.3, 4)
+        d2 = rng.normal(size=n)
+        lh2 = ift.GaussianEnergy(data=F(d2), inverse_covariance=ift.ScalingOperator(dom, c2, dt))
+        I.logp = lambda p: glogp(p) + float(np.sum(st.norm.logpdf(d2, loc=p.asnumpy(), scale=1 / math.sqrt(c2))))
+        I.expected_metric = lambda p: np.diag(ic) + c2 * np.eye(n)
+        return finish(lh + lh2, F(x))
     if kind.startswith("gauss"):
         d = (rng.normal(size=n) * 2).astype(fdt)          # float32 data: the values ARE the float32 numbers
         x = rng.normal(size=n) * 2
         if fdt != np.float64:
             dt = fdt                                       # GaussianEnergy insists on sampling dtype == data dtype
+        elif spell:
+            dt = sp_real
         if kind == "gauss_diag":
             ic = np.exp(rng.normal(size=n))
             icov = ift.makeOp(F(ic), sampling_dtype=dt)
@@ -178,7 +227,7 @@ def make(kind, seed, n=3):
             v, sdev = p.asnumpy(), 1 / np.sqrt(ic)
             return float(np.sum(st.norm.logpdf(d.real, loc=v.real, scale=sdev)) + np.sum(st.norm.logpdf(d.imag, loc=v.imag, scale=sdev)))
         I.logp = logp
-        return finish(ift.GaussianEnergy(data=F(d), inverse_covariance=ift.makeOp(F(ic), sampling_dtype=np.complex128)), F(x), np.complex128)
+        return finish(ift.GaussianEnergy(data=F(d), inverse_covariance=ift.makeOp(F(ic), sampling_dtype=sp_cplx)), F(x), np.complex128)
     if kind in ("cplx_scaling_gauss", "cplx_diag_gauss", "cplx_chain_gauss"):
         # complex Gaussian energy behind a model with a COMPLEX (complex-linear) Jacobian: the metric has
         # to be J^dagger M J (dense, over real coordinates (re, im)), positive, and equal to the pull-back
@@ -252,7 +301,7 @@ def make(kind, seed, n=3):
         dtp = np.complex128 if cplx else np.float64
         iv = np.exp(rng.normal(size=n) * 0.5)
         r = rng.normal(size=n) + (1j * rng.normal(size=n) if cplx else 0)
-        e = ift.VariableCovarianceGaussianEnergy(dom, "r", "i", dtp)
+        e = ift.VariableCovarianceGaussianEnergy(dom, "r", "i", sp_cplx if cplx else sp_real)
         x = ift.MultiField.from_dict({"r": F(r.astype(dtp)), "i": F(iv)})
         I.exact_pullback = False
         I.params = {}
@@ -401,6 +450,8 @@ def fisher_exact(kind, seed):
     from scipy import integrate
     from nifty.cl.operators import energy_operators as eo
     rng = krng(kind, seed + 7919)
+    kind, _, spell = kind.partition("#")
+    sp_real, sp_cplx = DT_SPELL[spell] if spell else (np.float64, np.complex128)
     kind, _, dtn = kind.partition("@")
     idt = np.dtype(dtn) if (dtn and np.issubdtype(np.dtype(dtn), np.integer)) else np.dtype(np.int64)
     if dtn and not np.issubdtype(np.dtype(dtn), np.integer):
@@ -420,7 +471,7 @@ def fisher_exact(kind, seed):
         elif kind == "gauss_scaling":
             mk = lambda d: ift.GaussianEnergy(data=F([d]), inverse_covariance=ift.ScalingOperator(dom, ic, sampling_dtype=np.float64))
         elif kind == "gauss_diag":
-            mk = lambda d: ift.GaussianEnergy(data=F([d]), inverse_covariance=ift.makeOp(F([ic]), sampling_dtype=np.float64))
+            mk = lambda d: ift.GaussianEnergy(data=F([d]), inverse_covariance=ift.makeOp(F([ic]), sampling_dtype=sp_real))
         else:
             a = math.sqrt(ic / 2.0)
             mk = lambda d: ift.GaussianEnergy(data=F([d]), inverse_covariance=ift.SandwichOperator.make(
@@ -431,7 +482,7 @@ def fisher_exact(kind, seed):
     if kind == "cgauss":
         ic, x = logu(rng, 0.1, 10), complex(rng.normal(), rng.normal())
         co = Coords(dom, np.complex128)
-        mk = lambda d: ift.GaussianEnergy(data=F(np.array([d])), inverse_covariance=ift.makeOp(F([ic]), sampling_dtype=np.complex128))
+        mk = lambda d: ift.GaussianEnergy(data=F(np.array([d])), inverse_covariance=ift.makeOp(F([ic]), sampling_dtype=sp_cplx))
         P = F(np.array([x]))
         fis = sum(wa * wb * np.outer(*(2 * [score(mk(x + (a + 1j * b) / math.sqrt(ic)), P, co)]))
                   for a, wa in zip(gh_x, gh_w) for b, wb in zip(gh_x, gh_w))
@@ -481,12 +532,13 @@ def fisher_exact(kind, seed):
     if kind in ("vcg_real", "vcg_cplx", "sgamma_real", "sgamma_cplx"):
         cplx = kind.endswith("cplx")
         dtp = np.complex128 if cplx else np.float64
+        sdt = sp_cplx if cplx else sp_real
         iv = logu(rng, 0.3, 3)
         s = 1 / math.sqrt(iv)
         nodes = [(a * s + 1j * b * s, wa * wb) for a, wa in zip(gh_x, gh_w) for b, wb in zip(gh_x, gh_w)] if cplx \
             else [(a * s, wa) for a, wa in zip(gh_x, gh_w)]
         if kind.startswith("vcg"):
-            e = ift.VariableCovarianceGaussianEnergy(dom, "r", "i", dtp)
+            e = ift.VariableCovarianceGaussianEnergy(dom, "r", "i", sdt)
             co = Coords(e.domain, {"r": dtp, "i": np.float64})
             pt = lambda r: ift.MultiField.from_dict({"r": F(np.array([r], dtype=dtp)), "i": F([iv])})
             fis = sum(w * np.outer(*(2 * [score(e, pt(r), co)])) for r, w in nodes)
@@ -501,8 +553,10 @@ def expected_pullback(kind, seed, full_fisher=True):
     """VCG: (metric dense, E_r[J^T J]) with residuals drawn with inverse variance i (Gauss-Hermite, exact)."""
     import nifty.cl as ift
     rng = krng(kind, seed + 104729)
+    kind, _, spell = kind.partition("#")
     cplx = kind.endswith("cplx")
     dtp = np.complex128 if cplx else np.float64
+    sdt = (DT_SPELL[spell][1 if cplx else 0]) if spell else dtp
     dom = ift.UnstructuredDomain(1)
     F = lambda a: ift.Field.from_raw(dom, np.asarray(a))
     iv = logu(rng, 0.3, 3)
@@ -511,7 +565,7 @@ def expected_pullback(kind, seed, full_fisher=True):
     gh_w = gh_w / gh_w.sum()
     nodes = [(a * s + 1j * b * s, wa * wb) for a, wa in zip(gh_x, gh_w) for b, wb in zip(gh_x, gh_w)] if cplx \
         else [(a * s, wa) for a, wa in zip(gh_x, gh_w)]
-    e = ift.VariableCovarianceGaussianEnergy(dom, "r", "i", dtp)
+    e = ift.VariableCovarianceGaussianEnergy(dom, "r", "i", sdt)
     co = Coords(e.domain, {"r": dtp, "i": np.float64})
     pt = lambda r: ift.MultiField.from_dict({"r": F(np.array([r], dtype=dtp)), "i": F([iv])})
     acc = 0
@@ -529,7 +583,7 @@ def run_instance(kind, seed):
     import nifty.cl as ift
     fails = []
     I = make(kind, seed)
-    full_kind, kind = kind, kind.partition("@")[0]
+    full_kind, kind = kind, kind.partition("@")[0].partition("#")[0]
     co = I.coords
     x0 = co.to_vec(I.x)
     E0 = energy_value(I.energy, I.x)
@@ -579,7 +633,7 @@ def run_instance(kind, seed):
             fails.append(("fisher", {"metric": np.asarray(Mf).tolist(), "E[score score^T]": np.asarray(Fi).tolist()}))
     # (e) expected pull-back where the transformation is a local approximation
     if kind in ("vcg_real", "vcg_cplx"):
-        Mv, Ev, iv = expected_pullback(kind, seed)
+        Mv, Ev, iv = expected_pullback(full_kind, seed)
         if not close(Mv, Ev, 1e-9, atol=1e-12 * (1 + np.max(np.abs(Mv)))):
             fails.append(("expected_pullback", {"metric": Mv.tolist(), "E[JtJ]": np.asarray(Ev).tolist(), "i": iv,
                                                 "ratio_ii": float(Ev[0, 0] / Mv[0, 0])}))   # coordinates are ordered by key: 'i' first
@@ -595,7 +649,8 @@ def corr_cases(rend, seed, nrep):
     R = rend
     for rep in range(nrep):
         s = seed * 1000 + rep
-        for kind in ("gauss_diag", "gauss_unit", "gauss_scaling", "gauss_sandwich", "gauss_diag@float32", "gauss_unit@float32"):
+        for kind in ["gauss_diag", "gauss_unit", "gauss_scaling", "gauss_sandwich", "gauss_diag@float32", "gauss_unit@float32",
+                     "gauss_diag#builtin", "gauss_diag#npdtype"] + ["gauss_%s" % c for c in COV_STATES]:
             I = make(kind, s)
             d, ic, x = I.params["d"], I.params["icov"], I.x.asnumpy()
             if kind.startswith("gauss_unit"):
@@ -633,8 +688,15 @@ def corr_cases(rend, seed, nrep):
                 energy_value(I.energy, I.x)
             _, t = I.energy.get_transformation()
             yield "%s transformation" % ck, [[R["categorical_t"](float(v)) for v in row] for row in x], t(I.x).asnumpy()
-        for kind in ("vcg_real", "vcg_cplx"):
+        # StandardHamiltonian / same-domain sums over lazily flipped covariance states: metric = icov + 1 resp. icov + c2
+        for c in COV_STATES:
+            for pre in ("hamiltonian_gauss_", "sumsame_gauss_"):
+                I = make(pre + c, s)
+                Mh = metric_dense_of(I.energy, I.x, I.coords)
+                yield "%s%s metric" % (pre, c), np.asarray(I.expected_metric(I.x)), Mh
+        for kind in ("vcg_real", "vcg_cplx", "vcg_real#builtin", "vcg_cplx#builtin", "vcg_real#npdtype", "vcg_cplx#npdtype"):
             I = make(kind, s)
+            kind = kind.partition("#")[0]
             r, iv = I.x["r"].asnumpy(), I.x["i"].asnumpy()
             _, t = I.energy.get_transformation()
             tx = t(I.x)
